@@ -218,7 +218,7 @@ LOOP:
 
 		// 不匹配子元素，则恢复原有数据
 		ctx.Path = path
-		ctx.Delete(n.segment.Name)
+		ctx.Delete(child.segment.Name)
 	}
 
 	// 没有子节点匹配，len(p.Path)==0，且子节点不为空，可以判定与当前节点匹配。
